@@ -77,7 +77,33 @@ func failingStmt(r *rand.Rand, kind int, v string, n *int) []*Node {
 	return []*Node{If(Def(nm(), e), Bool(true), Blk(), nil)}
 }
 
+// twinProgram: two function literals with identical bodies and no constants, on different lines;
+// only the later one fails (what it is given makes the difference), so the reported position must be
+// the later one's - a post-processing step that merges "equal" functions would report the earlier.
+func twinProgram(r *rand.Rand, idx int) *Program {
+	bodies := []func() *Node{
+		func() *Node { return Fn([]string{"x"}, false, Ret(Call(Id("x")))) },
+		func() *Node { return Fn([]string{"a", "b"}, false, Def("t", Bin("+", Id("a"), Id("b"))), Ret(Id("t"))) },
+		func() *Node { return Fn([]string{"a"}, false, Ret(Idx(Id("a"), Id("a")))) },
+		func() *Node { return Fn([]string{"a", "b"}, false, If(nil, Id("a"), Blk(Ret(Un("-", Id("b")))), nil), Ret(Id("b"))) },
+	}
+	b := bodies[idx%len(bodies)]
+	good := [][]*Node{{Fn(nil, false, Ret(Undef()))}, {Int(1), Int(2)}, {Arr()}, {Bool(true), Int(3)}}[idx%len(bodies)]
+	bad := [][]*Node{{Int(3)}, {Int(1), Arr()}, {Int(5)}, {Bool(true), Str("s")}}[idx%len(bodies)]
+	st := []*Node{Def("first", b()), Def("pad", Int(int64(r.Intn(9)))), Def("second", b()),
+		Def("ok", Call(Id("first"), good...))}
+	if r.Intn(2) == 0 {
+		st = append(st, Def("w", Fn([]string{"q"}, false, Ret(Call(Id("second"), bad...)))), Def("res", Call(Id("w"), Int(0))))
+	} else {
+		st = append(st, Def("res", Call(Id("second"), bad...)))
+	}
+	return &Program{Stmts: st, Inputs: []Input{{Name: "hostfail", V: V{"k": "hostfn", "name": "hostfail"}}}}
+}
+
 func errsProgram(r *rand.Rand, idx int) *Program {
+	if idx%9 == 8 {
+		return twinProgram(r, idx/9)
+	}
 	p := &Program{}
 	n := 0
 	depth := r.Intn(5)
